@@ -756,16 +756,33 @@ def check_c20(run):
     for prof in ("WhatWg", "WhatWgSortQuery", "GoogleSafeBrowsing", "Semantic"):
         for name, p, u, s in [("segments", "http://h/", "a/", ""), ("params", "http://h/?", "b=a&", ""), ("nested-escapes", "http://h/", "%2541", ""), ("slashes", "http://h/", "/", "")]:
             fams.append({"name": "canon-%s-%s" % (prof, name), "prefix": cps(p), "unit": cps(u), "suffix": cps(s), "base": [], "op": "canon:" + prof})
+    # raw invalid bytes (only the profiles accept them) and other profile-specific families
+    for prof in ("GoogleSafeBrowsing", "Semantic"):
+        for name, p, u, s in [("invalid-host", "http://", "\udcff", "/"), ("invalid-path", "http://h/", "\udcff", ""), ("host-dots", "http://", ".", "h/"), ("host-pct", "http://", "%41", "/"),
+                              ("query-nested", "http://h/?", "a=%2541&", "")]:
+            fams.append({"name": "canon-%s-%s" % (prof, name), "prefix": cps(p), "unit": cps(u), "suffix": cps(s), "base": [], "op": "canon:" + prof})
     ff = os.path.join(run.scratch, "cost_families.json")
     json.dump(fams, open(ff, "w"))
     outp = os.path.join(run.scratch, "cost.json")
     try:
-        p = subprocess.run([run.vh, "cost", "--families", ff, "--out", outp, "--n", "512,2048" if q else "512,2048,8192"], cwd=run.scratch, capture_output=True, text=True, timeout=1500)
+        p = subprocess.run([run.vh, "cost", "--families", ff, "--out", outp, "--n", "512,2048" if q else "512,2048,8192", "--cpu-n", "8192" if q else "16384"],
+                           cwd=run.scratch, capture_output=True, text=True, timeout=1500)
     except subprocess.TimeoutExpired:
         raise Infra("cost driver timeout")
     if p.returncode != 0:
         raise Infra("cost driver failed: %s %s" % (p.stdout[-1000:], p.stderr[-2000:]))
     res = json.load(open(outp))
+    cpu = [r for r in res if r.get("cpu_n")]
+    res = [r for r in res if not r.get("cpu_n")]
+    for r in cpu:
+        run.executions += 6
+        # CPU time is only meaningful well above the noise floor; linear families stay below it, quadratic ones do not
+        if r["cpu_ms"][1] >= 150 and r["ratio_cpu"] > 10:
+            run.violation("family %s (op %s): going from n=%d to 4n multiplies the CPU time by %.1f (%.0f ms -> %.0f ms; linear is ~4, threshold 10)"
+                          % (r["name"], r["op"], r["cpu_n"], r["ratio_cpu"], r["cpu_ms"][0], r["cpu_ms"][1]),
+                          {"property": "C20", "kind": "cpu-growth", "family": [f for f in fams if f["name"] == r["name"]][0], "result": r}, "cpu")
+    run.coverage_notes["cpu_families_measured"] = len(cpu)
+    run.coverage_notes["max_cpu_ms_at_4n"] = round(max([r["cpu_ms"][1] for r in cpu] + [0]), 1)
     worst = {}
     for r in res:
         run.executions += 2
@@ -796,7 +813,7 @@ def check_c20(run):
     run.samples += ["family %s: bytes x%.2f, mallocs x%.2f from n=%d to 4n" % (r["name"], r["ratio_bytes"], r["ratio_mallocs"], r["n"]) for r in list(worst.values())[:6]]
     run.exhaustive = False
     run.assumptions += ["growth is measured between n and 4n for n in {512, 2048[, 8192]} as TotalAlloc and Mallocs deltas (deterministic, single goroutine, GC off); a ratio above 9 is a violation "
-                        "(linear families measure about 4-6, quadratic ones about 16)", "CPU work that allocates nothing is only covered by the specification's work model, not measured"]
+                        "(linear families measure about 4-6, quadratic ones about 16)", "CPU work is measured as process CPU time (min of 3 runs) between n and 4n for n = 8192 / 16384 and judged only when the 4n run takes >= 150 ms (a linear family never does); ratio > 10 is a violation"]
     return run.finish("exploration", "design half by TLC: the work model of the specification's parser is linear (WorkBound on every state; per-pump increment bounded); measured half: every "
                       "(control state, unit) cycle of the parser's state graph found by TLC (spec/MC_Pump.tla) x suffixes, plus the families the property names and API-level ones "
                       "(setters, SearchParams, four profiles), each measured at n and 4n; distinct_nontrivial = families measured")
